@@ -1,5 +1,6 @@
 import GeomV.C05.Spec
 import GeomV.C05.Stream
+import GeomV.C05.BinStd
 /-!
 Driver for C05.  `geomv_c05 prep` rewrites `mix` lines into `mdec` lines using the independent OGC
 serializer with a pseudo-random byte-order tree; `geomv_c05 judge` reads lines carrying the
@@ -355,6 +356,18 @@ def judgeLine (line : String) : String :=
           else if !(firstAre [g, g, g] segs && segs.length == 3) then s!"SPEC {cls} decoded-value-differs {whenTok} got={" ".intercalate (res.take 8)}"
           else s!"OK {cls}"
         | _ => s!"SPEC {cls} {" ".intercalate (rhs.take 6)}"
+  | ["bin", o, h] =>
+    match hexToBytes h with
+    | some b =>
+      let bo := boOf o
+      let u32v := BinStd.orderUint32 bo (b.take 4)
+      let u64v := BinStd.orderUint64 bo (b.take 8)
+      let pt := BinStd.decPoint bo b
+      let want := [toString u32v, natToHex 16 u64v, bytesToHex (BinStd.orderPutUint32 bo u32v),
+        bytesToHex (BinStd.orderPutUint64 bo u64v), u64Hex pt.x, u64Hex pt.y, bytesToHex (BinStd.encPoint bo pt),
+        bytesToHex (BinStd.writeU32 bo u32v)]
+      if rhs == want then "OK bin" else s!"DIFF bin encoding/binary-differs-from-its-transcription want={" ".intercalate want}"
+    | none => "BAD parse"
   | "wrfail" :: lim :: o :: gt =>
     match geomOfToks gt with
     | none => "BAD parse"
